@@ -37,7 +37,18 @@ def ws_case(c):
     return "{| w_q := %s; w_v := %s; w_res_q := %s; w_res_v := %s |}" % (core.cbytes(bytes(c["q"] or [])), core.cbytes(bytes(c["v"] or [])), r(c["res_q"]), r(c["res_v"]))
 
 
-FAMILIES = {"ws": dict(
+def _c01():
+    import importlib
+    return importlib.import_module("props.c01")
+
+
+FAMILIES = {"rec": dict(
+    HARNESS="c01rec", N={"quick": 200, "thorough": 3000}, SHARD=50, CASE_TYPE="reccase", CHECK_FN="check_recased_cases",
+    HEADER="From Coq Require Import List String ZArith NArith Bool Floats.\nFrom WTF Require Import Model.Validate Model.Text Model.Engine Model.Recovery Check.Render Check.EngineTypes Check.C01Rec.\nImport ListNotations.\n",
+    coq_case=lambda c: _c01().rec_case(c), identity=lambda c: [c["db"], c["q"], c.get("recased")],
+    sample=lambda c: {"family": "recovery", "query": bytes(c["q"] or []).decode("utf-8", "replace"), "respelled": bytes(c.get("recased") or []).decode("utf-8", "replace"),
+                      "results": len(c.get("res") or []), "results_respelled": len(c.get("res_recased") or [])},
+), "ws": dict(
     HARNESS="c20ws", N={"quick": 400, "thorough": 6000}, SHARD=100, CASE_TYPE="wscase", CHECK_FN="check_cases",
     HEADER="From WTF Require Import Model.Validate Model.Text Check.Render Check.C14 Check.C20Ws.",
     coq_case=ws_case, identity=lambda c: [c["q"], c["v"]],
